@@ -138,23 +138,25 @@ def utf8Mbr (s : Bytes) : MbRes :=
       | [] => .incomplete
       | b1 :: _ => if cont b1 then .char 2 ((b0 - 0xc0) * 64 + (b1 - 128)) else .invalid
     else if b0 < 0xf0 then
+      -- glibc checks the shape byte by byte (a truncated sequence is "incomplete" even when it
+      -- could never become valid) and the value range only once the sequence is complete
       match r with
       | [] => .incomplete
       | b1 :: r2 =>
         if !cont b1 then .invalid
-        else if b0 = 0xe0 ∧ b1 < 0xa0 then .invalid
-        else if b0 = 0xed ∧ b1 ≥ 0xa0 then .invalid       -- UTF-16 surrogates
         else
           match r2 with
           | [] => .incomplete
           | b2 :: _ =>
-            if cont b2 then .char 3 ((b0 - 0xe0) * 4096 + (b1 - 128) * 64 + (b2 - 128)) else .invalid
+            if !cont b2 then .invalid
+            else if b0 = 0xe0 ∧ b1 < 0xa0 then .invalid           -- overlong
+            else if b0 = 0xed ∧ b1 ≥ 0xa0 then .invalid           -- UTF-16 surrogates
+            else .char 3 ((b0 - 0xe0) * 4096 + (b1 - 128) * 64 + (b2 - 128))
     else if b0 < 0xf8 then
       match r with
       | [] => .incomplete
       | b1 :: r2 =>
         if !cont b1 then .invalid
-        else if b0 = 0xf0 ∧ b1 < 0x90 then .invalid
         else
           match r2 with
           | [] => .incomplete
@@ -164,9 +166,10 @@ def utf8Mbr (s : Bytes) : MbRes :=
               match r3 with
               | [] => .incomplete
               | b3 :: _ =>
-                if cont b3 then
+                if !cont b3 then .invalid
+                else if b0 = 0xf0 ∧ b1 < 0x90 then .invalid       -- overlong
+                else
                   .char 4 ((b0 - 0xf0) * 262144 + (b1 - 128) * 4096 + (b2 - 128) * 64 + (b3 - 128))
-                else .invalid
     else .invalid
 
 /-! ## timegm: the specification -/
